@@ -160,7 +160,10 @@ func writeClosestN(results []catchmentStruct, w io.Writer) error {
 		for _, hit := range result.catchment {
 			temp = append(temp, hit.tname)
 		}
-		w.Write([]byte(result.qname + "," + strings.Join(temp, ";") + "\n"))
+		_, err = w.Write([]byte(result.qname + "," + strings.Join(temp, ";") + "\n"))
+		if err != nil {
+			return err
+		}
 	}
 
 	return nil
@@ -179,13 +182,19 @@ func writeClosestNTable(results []catchmentStruct, w io.Writer, measure string) 
 	case "snp":
 		for _, result := range results {
 			for _, hit := range result.catchment {
-				w.Write([]byte(result.qname + "," + hit.tname + "," + strconv.Itoa(int(hit.distance)) + "\n"))
+				_, err = w.Write([]byte(result.qname + "," + hit.tname + "," + strconv.Itoa(int(hit.distance)) + "\n"))
+				if err != nil {
+					return err
+				}
 			}
 		}
 	default:
 		for _, result := range results {
 			for _, hit := range result.catchment {
-				w.Write([]byte(result.qname + "," + hit.tname + "," + strconv.FormatFloat(hit.distance, 'f', 9, 64) + "\n"))
+				_, err = w.Write([]byte(result.qname + "," + hit.tname + "," + strconv.FormatFloat(hit.distance, 'f', 9, 64) + "\n"))
+				if err != nil {
+					return err
+				}
 			}
 		}
 	}
